@@ -25,13 +25,12 @@
      C28_refuted        (finding F4) the unrepaired decoder accepts fe 00 00 00 00 00 01 61
                         (a 7-byte size field) as the atom "a"; node_from_stream rejects it
      C28_int_from_bytes int_from_bytes = int_of_bytes
+     C28_int_to_bytes   int_to_bytes v = bytes_of_int v, the canonical (minimal two's-complement)
+                        encoding, for every integer v; it never raises OverflowError
      C28_curry_hash     curry_hash (treehash m) (map treehash args) = treehash (curry m args), for
                         every function H with 32-byte outputs (the Python code checks the length)
      C28_uncurry_curry  uncurry (curry m args) = (m, args)
    NOT proved here (so the property is claimed below proof level):
-     C28_int_to_bytes : forall v, py_int_to_bytes v = PyOk (bytes_of_int v)
-                        (stated below as a Definition; decided on the implementation for
-                        boundary/random integers against Allocator::new_number)
      C28_run : running `curry m args` on env = running m on (args ++ env), same result (cost
                differs): needs the interpreter model; decided on the implementation (the wheel's
                run API on both programs, and the Rust run_program on the second).
@@ -40,7 +39,7 @@
    theorem, it is assumed by this reading of `!=`); the `_cached_serialization` shortcut of
    sexp_to_byte_iterator is not modelled (see the check: CLVMTree hands out the bytes it was
    parsed from, which are not canonical when the input was not). *)
-From Clvm Require Import Model.PyCodec Proofs.PyCodecProofs.
+From Clvm Require Import Model.PyCodec Proofs.PyCodecProofs Proofs.PyIntProofs.
 Open Scope N_scope.
 
 Theorem C28_serializer : forall t,
@@ -81,8 +80,8 @@ Qed.
 Theorem C28_int_from_bytes : forall b, wf_bytes b = true -> py_int_from_bytes b = int_of_bytes b.
 Proof. exact py_int_from_bytes_spec. Qed.
 
-(* the unproved conjunct, as a closed proposition (no theorem claims it) *)
-Definition C28_int_to_bytes_statement : Prop := forall v, py_int_to_bytes v = PyOk (bytes_of_int v).
+Theorem C28_int_to_bytes : forall v, py_int_to_bytes v = PyOk (bytes_of_int v).
+Proof. exact py_int_to_bytes_spec. Qed.
 
 Theorem C28_curry_hash : forall (H : bytes -> bytes), (forall x, length (H x) = 32%nat) ->
   forall m args,
@@ -116,6 +115,7 @@ Print Assumptions C28_decoder_current.
 Print Assumptions C28_decoder_known_class.
 Print Assumptions C28_refuted.
 Print Assumptions C28_int_from_bytes.
+Print Assumptions C28_int_to_bytes.
 Print Assumptions C28_curry_hash.
 Print Assumptions C28_uncurry_curry.
 Print Assumptions C28_witness.
